@@ -151,6 +151,7 @@ struct H : MPSHost
 extern "C" int w_readline(int section, int lineno, int is_integer, int is_new_format, int* off, int* end_i, int* end_prev,
                           char* c0, int* lineno_out)
 {
+   VIN("section", section); VIN("lineno", lineno); VIN("lines_left", g_remaining);
    H h;
    h.m_section = (MPSHost::Section)section; h.m_lineno = lineno; h.m_is_integer = is_integer != 0; h.m_is_new_format = is_new_format != 0;
    h.m_f0 = h.m_f1 = h.m_f2 = h.m_f3 = h.m_f4 = h.m_f5 = nullptr;
